@@ -226,3 +226,127 @@ func (e *Engine) rangeModel(st *State, fn *ssa.Function, args []Val, site ssa.In
 }
 
 var _ = types.Typ
+
+// collectionModel: exact engine models of the point operations of library collections that have
+// abstract fields `keys` (and `m` for maps): Load, Store, Delete/Remove, Add, Contains, Len,
+// LoadOrStoreLazy. The library is assumed to implement a map / set (its concurrency is not modelled).
+func (e *Engine) collectionModel(st *State, fn *ssa.Function, args []Val, site ssa.Instruction, k Cont) bool {
+	if len(args) == 0 || args[0].K != kTerm {
+		return false
+	}
+	recv := args[0]
+	keysH, keysS, keysT, ok := e.absFieldOf(recv.Typ, "keys")
+	if !ok {
+		return false
+	}
+	keyT := keysT.(*GhostT).Key
+	valH, valS, valT, hasVal := e.absFieldOf(recv.Typ, "m")
+	ref := e.absRef(recv)
+	keys := func() string { return fmt.Sprintf("(select %s %s)", e.heapGet(st, keysH, keysS), ref) }
+	vals := func() string { return fmt.Sprintf("(select %s %s)", e.heapGet(st, valH, valS), ref) }
+	setKeys := func(t string) {
+		e.heapSet(st, keysH, keysS, fmt.Sprintf("(store %s %s %s)", e.heapGet(st, keysH, keysS), ref, t))
+	}
+	setVals := func(t string) {
+		e.heapSet(st, valH, valS, fmt.Sprintf("(store %s %s %s)", e.heapGet(st, valH, valS), ref, t))
+	}
+	var elemT types.Type
+	if hasVal {
+		elemT = valT.(*GhostT).Elem
+	}
+	key := func(i int) string { return e.asTerm(st, e.coerce(args[i], keyT)) }
+	e.noteAssumption("skipmap/skipset point operations behave as a map/set (library assumed; concurrency not modelled)")
+	switch fn.Name() {
+	case "Load":
+		if !hasVal || len(args) != 2 {
+			return false
+		}
+		has := fmt.Sprintf("(select %s %s)", keys(), key(1))
+		v := fmt.Sprintf("(ite %s (select %s %s) %s)", has, vals(), key(1), e.zero(elemT))
+		k(st, []Val{e.loaded(st, term(v, elemT)), term(has, tBool)})
+	case "Store":
+		if !hasVal || len(args) != 3 {
+			return false
+		}
+		kk := key(1)
+		setVals(fmt.Sprintf("(store %s %s %s)", vals(), kk, e.asTerm(st, e.coerce(args[2], elemT))))
+		setKeys(fmt.Sprintf("(store %s %s true)", keys(), kk))
+		k(st, nil)
+	case "Delete", "Remove":
+		if len(args) != 2 {
+			return false
+		}
+		kk := key(1)
+		was := e.S.Fresh("was_present", "Bool")
+		st.assume(fmt.Sprintf("(= %s (select %s %s))", was, keys(), kk))
+		setKeys(fmt.Sprintf("(store %s %s false)", keys(), kk))
+		k(st, []Val{term(was, tBool)})
+	case "Add":
+		if hasVal || len(args) != 2 {
+			return false
+		}
+		kk := key(1)
+		was := e.S.Fresh("was_present", "Bool")
+		st.assume(fmt.Sprintf("(= %s (select %s %s))", was, keys(), kk))
+		setKeys(fmt.Sprintf("(store %s %s true)", keys(), kk))
+		k(st, []Val{term(fmt.Sprintf("(not %s)", was), tBool)})
+	case "Contains":
+		if len(args) != 2 {
+			return false
+		}
+		k(st, []Val{term(fmt.Sprintf("(select %s %s)", keys(), key(1)), tBool)})
+	case "Len":
+		if len(args) != 1 {
+			return false
+		}
+		ks := e.sortOf(keyT)
+		card := "set_card_" + mangle(ks)
+		if !e.S.has(card) {
+			e.S.DeclareFun(card, []string{fmt.Sprintf("(Array %s Bool)", ks)}, e.S.IntSort())
+			zero := e.intLit(0, tInt)
+			e.S.AddAxiom([]string{card}, fmt.Sprintf("(forall ((s!c (Array %s Bool))) (! %s :pattern ((%s s!c))))", ks, e.compare(">=", "("+card+" s!c)", zero, tInt), card))
+			e.S.AddAxiom([]string{card}, fmt.Sprintf("(forall ((s!c (Array %s Bool)) (x!c %s)) (! (=> (select s!c x!c) %s) :pattern ((%s s!c) (select s!c x!c))))", ks, ks, e.compare(">", "("+card+" s!c)", zero, tInt), card))
+			e.S.AddAxiom([]string{card}, fmt.Sprintf("(forall ((s!c (Array %s Bool))) (! (=> (= (%s s!c) %s) (= s!c ((as const (Array %s Bool)) false))) :pattern ((%s s!c))))", ks, card, zero, ks, card))
+		}
+		k(st, []Val{term(fmt.Sprintf("(%s %s)", card, keys()), tInt)})
+	case "LoadOrStoreLazy":
+		if !hasVal || len(args) != 3 {
+			return false
+		}
+		kk := key(1)
+		fv := args[2]
+		if fv.K == kTerm {
+			if cv, ok := e.closureRev[fv.T]; ok {
+				fv = cv
+			}
+		}
+		if fv.K != kFunc && fv.K != kClosure {
+			limitf("LoadOrStoreLazy with an unknown constructor function")
+		}
+		// present
+		p := st.clone()
+		p.assume(fmt.Sprintf("(select (select %s %s) %s)", e.heapGet(p, keysH, keysS), ref, kk))
+		if !p.dead {
+			v := fmt.Sprintf("(select (select %s %s) %s)", e.heapGet(p, valH, valS), ref, kk)
+			p.trace = append(p.trace, "lazy:present")
+			k(p, []Val{e.loaded(p, term(v, elemT)), term("true", tBool)})
+		}
+		// absent: run the constructor, store its result
+		st.assume(fmt.Sprintf("(not (select %s %s))", keys(), kk))
+		st.trace = append(st.trace, "lazy:absent")
+		e.callFunc(st, fv.Fn, fv.Binds, nil, site, func(s2 *State, rs []Val) {
+			if s2.dead {
+				return
+			}
+			nv := e.asTerm(s2, rs[0])
+			kh := e.heapGet(s2, keysH, keysS)
+			vh := e.heapGet(s2, valH, valS)
+			e.heapSet(s2, valH, valS, fmt.Sprintf("(store %s %s (store (select %s %s) %s %s))", vh, ref, vh, ref, kk, nv))
+			e.heapSet(s2, keysH, keysS, fmt.Sprintf("(store %s %s (store (select %s %s) %s true))", kh, ref, kh, ref, kk))
+			k(s2, []Val{rs[0], term("false", tBool)})
+		})
+	default:
+		return false
+	}
+	return true
+}
